@@ -230,6 +230,18 @@ def gen_current_spec(rnd, names, solve_time, cur_units, dynamic=None):
         times = sorted(r3(rnd.uniform(0.05, 0.95) * solve_time) for _ in range(nseg - 1))
         if rnd.random() < 0.3:
             times[0] = 0.0  # a change on the very first step (after thermalisation too)
+        elif rnd.random() < 0.3:
+            # a narrow feature: a switch right after the start / right before the end, or a short pulse
+            # (a sampling of the time axis sees it only now and then)
+            w = rnd.choice([0.003, 0.007, 0.02]) * solve_time
+            shape = rnd.choice(["early", "late", "pulse"])
+            if shape == "early":
+                times[0] = float(f"{w:.6g}")
+            elif shape == "late":
+                times[-1] = float(f"{solve_time - w:.6g}")
+            elif nseg >= 3:
+                times[1] = float(f"{times[0] + w:.6g}")
+            times = sorted(times)
         vals = [balanced_currents(rnd, names, scale) for _ in range(nseg)]
         if nseg >= 3 and rnd.random() < 0.5:
             vals[-1] = dict(vals[0])  # return to an earlier value (boundary-condition cache)
@@ -391,6 +403,9 @@ def maybe_sibling(rnd, scn, p=0.1):
     the solver under test) with another applied field, and kept alive during the run."""
     if rnd.random() < p:
         scn["sibling"] = {"when": rnd.choice(["before", "after"]), "field": {"kind": "const", "B": rnd.choice([0.3, 0.7, 1.5])}}
+        if scn["device"].get("terminals") and rnd.random() < 0.5:
+            tp = scn["options"].get("terminal_psi", 0.0)
+            scn["sibling"]["terminal_psi"] = 0.0 if tp is None else None
     return scn
 
 
